@@ -599,9 +599,12 @@ def _run_os(sh, params):
             continue
         # conditioning on the oracle: conf is monotone in p; brentq's absolute xtol is
         # 2e-12 (+ 4 eps relative), so p is defined to ~4e-12; slope by a 1e-9 step
-        h = 1e-9 * min(pg, 1 - pg)
-        c_hi, c_lo = S.conf_value(r, n, pg + h), S.conf_value(r, n, pg - h)
-        slope = abs(c_hi - c_lo) / (2 * h)
+        # (exact rationals: pg + h rounds back to pg in floats when 1 - pg is ~1e-8)
+        from fractions import Fraction
+        hq = Fraction(min(pg, 1 - pg)) / 10**9
+        c_hi = S.conf_value(r, n, Fraction(pg) + hq)
+        c_lo = S.conf_value(r, n, Fraction(pg) - hq)
+        slope = abs(c_hi - c_lo) / (2 * mp.mpf(hq.numerator) / mp.mpf(hq.denominator))
         tol = float(slope) * 8e-12 + 1e-14
         e = float(abs(cv - mp.mpf(c)))
         sh.count("mon:order-p-solves-confidence")
